@@ -160,6 +160,15 @@ Proof.
 Qed.
 Print Assumptions C10_frozen_is_constant.
 
+(* freezing is idempotent (a frozen copy of a frozen copy, taken under ANY later store, is
+   the same circuit), and a circuit without Parameter references is its own frozen copy *)
+Theorem C10_freeze_idempotent :
+  forall (K : Type) (e e' : @env K) (c : @circ K),
+    freeze e' (freeze e c) = freeze e c /\
+    (no_ref_circ c = true -> freeze e c = c).
+Proof. exact (fun K e e' c => conj (@freeze_idem K e e' c) (@freeze_no_ref_circ K e c)). Qed.
+Print Assumptions C10_freeze_idempotent.
+
 (* along a history: after new = a.copy(freeze_parameters=True), whatever steps
    follow that do not assign or modify `new` itself, reading U_full of `new`
    returns what U_full of `a` returned at the moment of the copy (matrix or
